@@ -159,13 +159,18 @@ def run_tlc(
     return r
 
 
-def sany(scratch: Scratch, module: str) -> None:
+def sany_copy(scratch: Scratch) -> Path:
     work = scratch.dir / "spec"
     if not work.exists():
         shutil.copytree(SPEC, work)
         for sub in ("mc", "trace"):
             for f in (work / sub).glob("*.tla"):
                 shutil.copy(f, work / f.name)
+    return work
+
+
+def sany(scratch: Scratch, module: str) -> None:
+    work = sany_copy(scratch)
     p = subprocess.run(
         ["java", "-cp", JAR, "tla2sany.SANY", f"{module}.tla"], cwd=work, capture_output=True, text=True
     )
@@ -367,28 +372,48 @@ def validate_records(ctx: Ctx, recs: list[dict], module: str | None = None, env:
     if not uniq:
         return
     n = len(ctx.model_runs)
-    tf = ctx.scratch.dir / f"traces-{module}-{n}.ndjson"
-    vf = ctx.scratch.dir / f"verdicts-{module}-{n}.ndjson"
-    write_ndjson(tf, [{a: b for a, b in r.items() if a != "gen"} for r in uniq])
-    e = {"TRACE_FILE": str(tf), "VERDICT_FILE": str(vf)}
-    e.update(prop.trace_env)
+    e = dict(prop.trace_env)
     if env:
         e.update(env)
-    r = run_tlc(ctx.scratch, module, f"{module}.cfg", env=e)
-    ctx.model_runs.append({"module": module, "cfg": f"{module}.cfg", "generated": r.generated,
-                           "distinct": r.distinct, "wall_s": round(r.wall, 1), "trace_validation": True})
-    if not r.ok():
-        raise MachineryError(f"trace validation run failed ({module}):\n{r.out[-3000:]}")
-    verdicts = read_ndjson(vf)
+    # JSON import in TLC is single-threaded: large batches are split over a few JVMs
+    parts = max(1, min(4, (len(uniq) + 3999) // 4000))
+    size = (len(uniq) + parts - 1) // parts
+    jobs = []
+    for pi in range(parts):
+        lo, hi = pi * size, min(len(uniq), (pi + 1) * size)
+        if lo >= hi:
+            continue
+        tf = ctx.scratch.dir / f"traces-{module}-{n}-{pi}.ndjson"
+        vf = ctx.scratch.dir / f"verdicts-{module}-{n}-{pi}.ndjson"
+        write_ndjson(tf, [{a: b for a, b in r.items() if a != "gen"} for r in uniq[lo:hi]])
+        jobs.append((lo, tf, vf))
+
+    def one(job):
+        lo, tf, vf = job
+        ee = dict(e)
+        ee.update({"TRACE_FILE": str(tf), "VERDICT_FILE": str(vf)})
+        return run_tlc(ctx.scratch, module, f"{module}.cfg", env=ee, workers=max(2, NCPU // len(jobs)))
+
+    # prepare the scratch copy of the spec before going parallel
+    sany_copy(ctx.scratch)
+    from concurrent.futures import ThreadPoolExecutor
+    with ThreadPoolExecutor(len(jobs)) as ex:
+        results = list(ex.map(one, jobs))
     by_tid = {}
-    for line in verdicts:
-        if "v" in line:        # chunked verdicts of stateless observations
-            for item in line["v"]:
-                v = dict(item["r"]) if isinstance(item["r"], dict) else {"fail": item["r"]}
-                v["tid"] = item["tid"]
-                by_tid.setdefault(v["tid"], []).append(v)
-        else:
-            by_tid.setdefault(line["tid"], []).append(line)
+    for (lo, tf, vf), r in zip(jobs, results):
+        ctx.model_runs.append({"module": module, "cfg": f"{module}.cfg", "generated": r.generated,
+                               "distinct": r.distinct, "wall_s": round(r.wall, 1), "trace_validation": True})
+        if not r.ok():
+            raise MachineryError(f"trace validation run failed ({module}):\n{r.out[-3000:]}")
+        for line in read_ndjson(vf):
+            if "v" in line:        # chunked verdicts of stateless observations
+                for item in line["v"]:
+                    v = dict(item["r"]) if isinstance(item["r"], dict) else {"fail": item["r"]}
+                    v["tid"] = item["tid"] + lo
+                    by_tid.setdefault(v["tid"], []).append(v)
+            else:
+                line["tid"] += lo
+                by_tid.setdefault(line["tid"], []).append(line)
     if set(by_tid) != set(range(1, len(uniq) + 1)):
         raise MachineryError(
             f"{module}: {len(by_tid)} verdicts for {len(uniq)} traces (every trace must get exactly one verdict)")
